@@ -56,16 +56,16 @@ theorem step_inv (s : St) (prev : Option (Ev α)) (p : Poll α) (h : Inv s prev)
         exact ⟨by simp, fun _ hgt => by simp at hgt, by simp⟩
       | disc =>
         simp only [step, ht, hb, Bool.false_eq_true, if_false]
-        exact ⟨by simp; omega, fun hf => by simp at hf, by simp [hb]⟩
+        exact ⟨by simp; omega, fun hf => by simp at hf, by simp⟩
       | empty =>
         simp only [step, ht, hb, Bool.false_eq_true, if_false]
         by_cases hlt : s.retry < Consts.MAX_RETRY
         · simp only [hlt, if_true]
-          exact ⟨by simp; omega, fun _ hgt => by simp at hgt; omega, by simp [hb]⟩
+          exact ⟨by simp; omega, fun _ hgt => by simp at hgt; omega, by simp⟩
         · simp only [hlt, if_false]
           by_cases heq : s.retry = Consts.MAX_RETRY
           · simp only [heq, if_true]
-            exact ⟨by simp, fun _ _ => rfl, by simp [hb]⟩
+            exact ⟨by simp, fun _ _ => rfl, by simp⟩
           · simp only [heq, if_false]
             exact ⟨by simp, fun _ hgt => by simp at hgt, by simp⟩
 
@@ -130,8 +130,7 @@ theorem spin_then_flush : ∀ (k : Nat) (s : St), s.terminated = false → s.blo
   induction k with
   | zero =>
     intro s ht hb hr
-    simp [runFrom, step, ht, hb, show ¬ s.retry < Consts.MAX_RETRY by omega,
-      show s.retry = Consts.MAX_RETRY by omega]
+    simp [runFrom, step, ht, hb, show s.retry = Consts.MAX_RETRY by omega]
   | succ k ih =>
     intro s ht hb hr
     have hlt : s.retry < Consts.MAX_RETRY := by omega
@@ -360,7 +359,7 @@ theorem step_inv (s : State α) (e : Ev α) (h : Inv s) : Inv (step s e) ∧ sam
         rcases hu with rfl | hu
         · exact g2
         · exact hok u (by simp [hu])
-      · simp only [pending_cons, g1, fsOf, List.map_cons, g3, downF, List.flatMap_append,
+      · simp only [pending_cons, g1, fsOf, List.map_cons, g3, downF,
           downF_append, List.flatMap_cons, List.flatMap_nil, List.append_nil]
         simp only [pending_cons, fsOf, List.map_cons, downF] at hbal
         rw [← hbal]; simp [List.append_assoc]
@@ -629,7 +628,7 @@ theorem filterMap_replicate_recv (k : Nat) :
     (List.replicate k (Ev.recv 0 [] : Ev α)).filterMap timeoutIdx = [] := by
   induction k with
   | zero => rfl
-  | succ k ih => simp [List.replicate_succ, timeoutIdx, ih]
+  | succ k _ => simp [List.replicate_succ, timeoutIdx]
 
 theorem settleEvs_timeouts : ∀ (fuel : Nat) (l : List (Stage α)), l.length ≤ fuel →
     (settleEvs fuel l).filterMap timeoutIdx = List.range' 1 (l.length - 1) := by
